@@ -236,7 +236,10 @@ structure Mgr where
   strConsts : List (String × Nid)
   fresh : Nat
   tm : TypeMgr
-  deriving Repr
+  /-- verdict of the environment's type checker on a node content (`env.stc.get_type`): a
+      parameter of the manager, never changed; the model and all its theorems are for every
+      such verdict function -/
+  tc : Content → Bool
 
 def trueC : Content := ⟨NT.BOOL_CONSTANT, [], .bool true⟩
 def falseC : Content := ⟨NT.BOOL_CONSTANT, [], .bool false⟩
@@ -244,9 +247,12 @@ abbrev trueId : Nid := 1
 abbrev falseId : Nid := 2
 
 /-- `FormulaManager.__init__`: ids start at 1, TRUE and FALSE are created first. -/
-def Mgr.init : Mgr :=
+def Mgr.initWith (tc : Content → Bool) : Mgr :=
   { formulae := [(falseC, falseId), (trueC, trueId)], nextId := 3, symbols := [],
-    intConsts := [], realConsts := [], strConsts := [], fresh := 0, tm := TypeMgr.init }
+    intConsts := [], realConsts := [], strConsts := [], fresh := 0, tm := TypeMgr.init, tc := tc }
+
+/-- a manager whose type checker accepts everything it is asked (well-sorted histories) -/
+def Mgr.init : Mgr := Mgr.initWith (fun _ => true)
 
 def assoc [DecidableEq α] (k : α) : List (α × β) → Option β
   | [] => none
@@ -267,15 +273,23 @@ def Mgr.validId (s : Mgr) (i : Nid) : Bool := decide (0 < i) && decide (i < s.ne
 
 /-! ## Primitive state changes -/
 
-/-- `create_node` (formula.py:95-106).  The arguments are `FNode` objects in Python, hence
-    always existing nodes; the model checks that explicitly. -/
-def createNode (c : Content) (s : Mgr) : Except Err Nid × Mgr :=
+/-- The table part of `create_node` (formula.py:95-106): look the content up, insert it if
+    new.  The arguments are `FNode` objects in Python, hence always existing nodes; the model
+    checks that explicitly. -/
+def createNodeU (c : Content) (s : Mgr) : Except Err Nid × Mgr :=
   if c.ids.all s.validId then
     match assoc c s.formulae with
     | some i => (.ok i, s)
     | none => (.ok s.nextId,
         { s with formulae := (c, s.nextId) :: s.formulae, nextId := s.nextId + 1 })
   else (.error .badId, s)
+
+/-- `create_node`: after the look-up / insertion the node is type-checked — on BOTH paths
+    (formula.py:99 and :105); a rejected node raises `PysmtTypeError` and STAYS in the table. -/
+def createNode (c : Content) (s : Mgr) : Except Err Nid × Mgr :=
+  match createNodeU c s with
+  | (.ok i, s') => if s.tc c then (.ok i, s') else (.error .typeError, s')
+  | r => r
 
 def intC (n : Int) : Content := ⟨NT.INT_CONSTANT, [], .int n⟩
 def realC (q : Rat) : Content := ⟨NT.REAL_CONSTANT, [], .rat q⟩
